@@ -59,3 +59,13 @@ package shared
 //@   ensures  result != nil ==> base.chunkrecords(result) == nwritten - old(nemitted) && nemitted == nwritten && packer.currentChunk == nil
 //@   ensures  result == nil ==> nemitted == old(nemitted) && packer.currentChunk == old(packer.currentChunk)
 //@   ensures  old(packer.currentChunk) != nil ==> result != nil
+
+// chunk IDs: the (timestamp, sequence) state strictly increases lexicographically with every call, so IDs are unique and
+// ordered as long as the ID is formatted from that state (it is formatted from the clock reading, which equals the state's
+// timestamp unless the wall clock stepped backwards — the clock assumption of C05/C11)
+//@ func (generator *chunkIDGenerator) Generate() string
+//@   requires generator != nil
+//@   modifies generator.epochNano, generator.sequence
+//@   ensures[ids-strictly-increase] (generator.epochNano > old(generator.epochNano) && generator.sequence == 0)
+//@        || (generator.epochNano == old(generator.epochNano) && generator.sequence == old(generator.sequence) + 1)
+//@   canary ensures generator.epochNano > old(generator.epochNano)
